@@ -76,6 +76,7 @@ fn balanced(log: &[(usize, u64)], n: usize) -> Result<(), String> {
 }
 
 struct St {
+    samples: Vec<String>,
     evals: u64,
     distinct: HashSet<u64>,
     failures: Vec<(String, String)>,
@@ -105,6 +106,9 @@ fn round_robin(st: &mut St, max_calls: usize) {
                 }
                 st.evals += 1;
                 st.distinct.insert(h(&("rr", n, k, pattern)));
+                if k == 7 && pattern == 0b1010101 {
+                    st.samples.push(format!("round robin n={n} calls={k} clone pattern {pattern:#b}: backends hit {:?}", log.borrow().iter().map(|x| x.0).collect::<Vec<_>>()));
+                }
                 if let Err(e) = balanced(&log.borrow(), n) {
                     st.failures.push(("C20-rr-unbalanced".into(), format!("n={n} calls={k} clone pattern {pattern:#b}: {e}")));
                 }
@@ -350,6 +354,9 @@ fn retry(st: &mut St, max_len: usize) {
                 }
                 let want_attempts: Vec<u32> = (1..=k).collect();
                 let label = format!("results {script:?} policy {policy:#b}");
+                if st.evals % 30_011 == 1 && st.samples.len() < 6 {
+                    st.samples.push(format!("retry: backend {label}: policy saw attempts {:?}, backend called {} times", seen_attempts.borrow(), backend.seen.borrow().len()));
+                }
                 if *seen_attempts.borrow() != want_attempts {
                     st.failures.push(("C20-retry-attempt-numbers".into(), format!("{label}: policy saw attempts {:?}, expected {want_attempts:?}", seen_attempts.borrow())));
                 }
@@ -376,7 +383,7 @@ fn retry(st: &mut St, max_len: usize) {
 
 pub fn run_c20(tier: Tier) -> i32 {
     let start = Instant::now();
-    let mut st = St { evals: 0, distinct: HashSet::new(), failures: vec![] };
+    let mut st = St { samples: vec![], evals: 0, distinct: HashSet::new(), failures: vec![] };
     if std::panic::catch_unwind(std::panic::AssertUnwindSafe(|| round_robin(&mut st, 12))).is_err() {
         st.failures.push(("C20-rr-panic".into(), crate::mock::take_panic()));
     }
@@ -429,6 +436,6 @@ pub fn run_c20(tier: Tier) -> i32 {
         &st.failures,
         json!({"loom": loom_doc}),
         "round robin: backends n in 1..5, every number of calls 0..12 x every pattern of which of two clones (sharing the cursor) issues each call: per-backend counts differ by <=1 at every prefix; 3 calls created then first-polled in every order (after 0..n earlier calls), re-polls do not move the cursor; thread level: loom explores the module text cut from load_balance.rs (std::sync -> loom::sync) with concurrent next() calls under a preemption bound. consistent hash: n in 1..5 x hashers (constant / request-derived / mixed) with values {0,1,n-1,n,n+1,2^63,u64::MAX} and RandomState: index always valid, equal requests -> same backend, across clones. retry: every result sequence of length <=4 over {Ok, Server error, DeadlineExceeded, Shutdown, Send failure, throttling error, Channel failure} x every policy table over (is_ok, attempt): identical Arc each time, attempts 1,2,3.., last result returned. distinct_nontrivial = distinct grid cells",
-        vec![json!({"case": "rr n=3 calls=7 clone pattern 0b1010101"}), json!({"case": "retry results [Err(0), Ok(1001), Err(2)] policy 0b0110"}), json!({"case": "consistent hash n=4 hasher constant u64::MAX"})],
+        st.samples.iter().map(|c| json!({"case": c})).collect(),
     )
 }
